@@ -272,7 +272,7 @@ func c09Run(c *mon.Ctx, idx int) {
 	}
 }
 
-const c09NStress = 9
+const c09NStress = 11
 
 type C09Base struct{ A int }
 type c09Embedded struct {
@@ -387,6 +387,49 @@ func c09Stress(c *mon.Ctx, k int) {
 		expect("p.c09Struct.A == 4", d, "E", "embedded")
 		expect("v is empty", d, "E", "embedded")
 		expect("any v as k, x { x == 1 }", d, "E", "embedded")
+	case 9: // threshold sizes: lists and maps of exactly n elements, paths of n parts
+		for _, n := range []int{15, 16, 17, 31, 32, 33, 63, 64, 65, 127, 128, 129, 255, 256, 257, 1023, 1024, 1025} {
+			l := make([]interface{}, n)
+			tl := make([]int64, n)
+			m := make(map[string]interface{}, n)
+			for i := 0; i < n; i++ {
+				l[i], tl[i] = i, int64(i)
+				m[fmt.Sprintf("k%05d", i)] = i
+			}
+			d := map[string]interface{}{"l": l, "tl": tl, "m": m}
+			lab := "threshold-sizes"
+			expect(fmt.Sprintf("any l as i, x { i == %d and x == %d }", n-1, n-1), d, "T", lab)
+			expect(fmt.Sprintf("all tl as i, x { x != %d }", n), d, "T", lab)
+			expect(fmt.Sprintf("%d in l and %d in tl and %d not in l", n-1, n-1, n), d, "T", lab)
+			expect(fmt.Sprintf("l.%d == %d and tl.%d == %d", n-1, n-1, n-1, n-1), d, "T", lab)
+			expect(fmt.Sprintf("l.%d == 1", n), d, "E", lab)
+			expect(fmt.Sprintf("any m as k, v { v == %d and k == k%05d }", n-1, n-1), d, "T", lab)
+			expect(fmt.Sprintf("all m as k, v { v != %d }", n), d, "T", lab)
+			expect(fmt.Sprintf("k%05d in m and k%05d not in m", n-1, n), d, "T", lab)
+			expect("l is not empty and m is not empty", d, "T", lab)
+		}
+		for _, depth := range []int{15, 16, 17, 63, 64, 65, 255, 256, 257} {
+			var cur interface{} = 7
+			for i := 0; i < depth; i++ {
+				cur = map[string]interface{}{"p": cur}
+			}
+			path := strings.Repeat("p.", depth-1) + "p"
+			expect(path+" == 7", cur, "T", "threshold-path-lengths")
+			expect("\"/"+strings.ReplaceAll(path, ".", "/")+"\" != 7", cur, "F", "threshold-path-lengths")
+			expect(path+".p == 7", cur, "E", "threshold-path-lengths")
+		}
+	case 10: // long strings at buffer-like sizes as keys, literals and values
+		for _, n := range []int{63, 64, 65, 127, 128, 129, 255, 256, 257, 4095, 4096, 4097, 65535, 65536, 65537} {
+			key := strings.Repeat("k", n)
+			val := strings.Repeat("v", n)
+			d := map[string]interface{}{"m": map[string]interface{}{key: val}, "s": val}
+			expect("m."+key+" == "+val, d, "T", "threshold-string-lengths")
+			expect("m[\""+key+"\"] == \""+val+"\"", d, "T", "threshold-string-lengths")
+			expect("s == \""+val+"x\"", d, "F", "threshold-string-lengths")
+			expect(key+" in m", d, "T", "threshold-string-lengths")
+			expect("s matches \"^v{"+fmt.Sprint(min(n, 1000))+"}\"", d, "T", "threshold-string-lengths")
+			expect("any m as k, v { k == "+key+" and v == "+val+" }", d, "T", "threshold-string-lengths")
+		}
 	case 8: // many operands (long flat chain under a budget) evaluated on data
 		n := 3000
 		var sb strings.Builder
@@ -407,7 +450,7 @@ func bexprBudget() bexpr.Option { return bexpr.WithMaxExpressions(1 << 24) }
 func init() {
 	mon.Register(&mon.Prop{
 		ID: "C09", Level: "exploration",
-		Rule:        "exhaustive matrix: a zoo with a value of every reflect.Kind (Invalid/nil included) and the odd shapes (nil/odd elements in containers, non-string and named-string keyed maps, NaN keys, multi-level / nil / self-referential pointers, cyclic map/slice/struct, hostile json.Number) x 8 holders (map, tagged struct, *map, []interface{}, nested map, map[string]T, []T, the datum itself) x ~270 expressions (8 operators x 13 literal classes x path shapes, not/and/or, quantifiers in every binding mode); 9 stress cases (2*10^4 | 3*10^5-element lists and maps, 10^5 | 1.5*10^6-byte strings, 300 | 3000-level nesting with paths of that length, 6-fold nested quantifiers over 96 leaves, embedded structs, 3000-operand chains) whose outcomes are known by construction; then the seeded C01 workload incl. the reference's unspecified cases. oracle: recover() sees no panic, the process does not die, err != nil implies result == false. non-trivial = the expression parsed and was evaluated; distinct by (operator, zoo entry@holder, expression)",
+		Rule:        "exhaustive matrix: a zoo with a value of every reflect.Kind (Invalid/nil included) and the odd shapes (nil/odd elements in containers, non-string and named-string keyed maps, NaN keys, multi-level / nil / self-referential pointers, cyclic map/slice/struct, hostile json.Number) x 8 holders (map, tagged struct, *map, []interface{}, nested map, map[string]T, []T, the datum itself) x ~270 expressions (8 operators x 13 literal classes x path shapes, not/and/or, quantifiers in every binding mode); 11 stress cases (incl. lists / maps of exactly 15..1025 elements, paths of 15..257 parts, keys / values of 63..65537 bytes) (2*10^4 | 3*10^5-element lists and maps, 10^5 | 1.5*10^6-byte strings, 300 | 3000-level nesting with paths of that length, 6-fold nested quantifiers over 96 leaves, embedded structs, 3000-operand chains) whose outcomes are known by construction; then the seeded C01 workload incl. the reference's unspecified cases. oracle: recover() sees no panic, the process does not die, err != nil implies result == false. non-trivial = the expression parsed and was evaluated; distinct by (operator, zoo entry@holder, expression)",
 		Assumptions: []string{"recursive pointer TYPES (type T *T; p = &p) are excluded: pointerstructure's own dereference loop never ends on them, which could only ever be inconclusive here"},
 		NumCases:    func(tier string) int { return len(c09Zoo()) + c09NStress + tierN(tier, 15000, 400000) },
 		Run:         c09Run,
@@ -418,7 +461,7 @@ func init() {
 			return 300
 		},
 		Required: func(tier string) []string {
-			l := []string{"zoo_entries", "stress:big-list", "stress:big-iface-list", "stress:big-map", "stress:long-string", "stress:deep-maps", "stress:deep-lists-and-pointers", "stress:nested-quantifiers", "stress:embedded", "stress:long-chain", "random_evaluations", "outcome:T", "outcome:F", "outcome:E", "random_unspecified_covered"}
+			l := []string{"zoo_entries", "stress:big-list", "stress:big-iface-list", "stress:big-map", "stress:long-string", "stress:deep-maps", "stress:deep-lists-and-pointers", "stress:nested-quantifiers", "stress:embedded", "stress:long-chain", "stress:threshold-sizes", "stress:threshold-path-lengths", "stress:threshold-string-lengths", "random_evaluations", "outcome:T", "outcome:F", "outcome:E", "random_unspecified_covered"}
 			for _, op := range append(append([]string{}, c01Ops...), "not", "quantifier", "connective") {
 				for _, z := range []string{"nil", "int", "chan", "func", "complex128", "struct", "slice-iface-mixed", "slice-ptr-nil", "slice-ptrptr", "map-int-key", "map-named-key", "nilptr", "cyclic-map", "unsafe.Pointer"} {
 					l = append(l, "cell:"+op+"/"+z+"@map")
